@@ -5,6 +5,10 @@ csvpath functions, each verified to parse and run on the current tree.
 The twin-based oracles (C07, C08, C19) never need to know what a component
 *means* - only that it is valid and deterministic - so the wider the set of
 functions, the more per-function and per-process state they exercise.
+Left out on purpose: functions whose value depends on the run form or the
+environment by definition - now/today/thismonth/thisyear, random/shuffle, import,
+jinja, and count_bytes() (bytes spooled so far: 0 or an AttributeError outside a
+collecting run) and run_table() (prints the run's own metadata, incl. how many lines were collected so far).
 Placeholders: {i} unique suffix, {h} {g} header indexes (1..n)."""
 import json
 import os
@@ -31,11 +35,11 @@ CANDIDATES = [
     "store_line_fingerprint()", "after_blank()", "first_line()", "@vars{i} = variables()", "put(\"pk{i}\", #{h}, line_number())", "@gt{i} = get(\"pk{i}\", #{h})",
     "track(#{h}, #{g})", "push(\"zs{i}\", #{h})", "push_distinct(\"zd{i}\", #{h})", "@pp{i} = pop(\"zs{i}\")", "@pk{i} = peek(\"zs{i}\", 0)", "@ps{i} = peek_size(\"zs{i}\")",
     "@sz{i} = size(\"zs{i}\")", "@stk{i} = stack(\"zs{i}\")", "empty_stack()", "@es{i} = empty_stack(#{h})", "failed()", "valid()", "@hm{i} = has_matches()",
-    "@cb{i} = count_bytes()", "count_lines() == 3", "@cs{i} = count_scans()", "count() == 2", "@cn{i} = count(#{h} == \"a\")", "tally(#{h}, #{g})",
+    "count_lines() == 3", "@cs{i} = count_scans()", "count() == 2", "@cn{i} = count(#{h} == \"a\")", "tally(#{h}, #{g})",
     "string(#{h})", "integer(#{h})", "decimal(#{h})", "boolean(#{h})", "none(#{h})", "blank(#{h})", "wildcard()", "nonspecific(#{h})",
-    "line(string(#0), wildcard())", "date(#{h}, \"%Y\")", "@dt{i} = datetime(#{h}, \"%Y-%m-%d\")", "exact(#{h}, \"a\")", "true()", "false() -> @ff{i} = 1", "no()",
+    "line(string(#0), wildcard())", "date(#{h}, \"%Y\")", "exact(#{h}, \"a\")", "true()", "false() -> @ff{i} = 1", "no()",
     "print_line()", "print(\"z{i} $.csvpath.count_matches $.variables.zs{i}.length $.headers.{h} $.csvpath.total_lines\")", "print.onmatch(\"m{i} $.csvpath.line_number\")",
-    "print.once(\"once{i}\")", "header_table()", "row_table()", "var_table()", "run_table()", "@x{i}.latch = #{h}", "@x{i}.onchange = #{h}", "@x{i}.increase = int(#{h})",
+    "print.once(\"once{i}\")", "header_table()", "row_table()", "var_table()", "@x{i}.latch = #{h}", "@x{i}.onchange = #{h}", "@x{i}.increase = int(#{h})",
     "@x{i}.notnone = #{h}", "@x{i}.asbool = #{h}", "@x{i}.nocontrib = #{h}", "#{h}.nocontrib == \"a\"", "@y{i} = @x{i}", "@y{i} == #{h}", "#{h} == #{g}",
     "last.nocontrib() -> @lst{i} = count_scans()", "first_line.nocontrib() -> @fst{i} = 1", "line_number() == 2 -> @w{i} = #{h}", "yes() -> push(\"zs{i}\", line_number())",
     "date(#{h})", "datetime(#{h})", "regex(#{h}, /[[a-z]]/)", "regex(#{h}, /a{{1,2}}b/)", "exact(#{h}, /x|y/)",
